@@ -195,7 +195,10 @@ Fixpoint supported (D : decls) (e : expr) {struct e} : bool :=
   | ESel x _ _ => negb (d_signed (D x))
   | EUn _ a => supported D a
   | EBin o a b => match o with BPow => false | _ => supported D a && supported D b end
-  | ETern c a b => supported D c && supported D a && supported D b
+  | ETern c a b =>
+      supported D c && supported D a && supported D b &&
+      negb (match a, b with ESign _ _, ESign _ _ => true | _, _ => false end)
+      (* both branches $signed/$unsigned calls: all engines sign-extend in an unsigned context (C01 finding) *)
   | ECat items =>
       (fix go (l : list (expr * N)) : bool :=
          match l with [] => true | (a, _) :: t => supported D a && go t end) items
